@@ -50,9 +50,15 @@ def rule_chkeff(ctx: Ctx) -> RuleResult:
             txt = norm(t.ast.test)
             raises = [x for x in t.ast.body if isinstance(x, ast.Raise)]
             is_spil = raises and isinstance(raises[0].exc, ast.Call) and dotted(raises[0].exc.func) == "SpilException"
-            if txt in ("path.exists()", "not path.exists()"):
-                exists_tests.append((t, txt, is_spil))
-            if txt in ("not _sid.path(self.config)", "not path"):
+            import re as _re
+
+            # the names the path of the Sid goes by: locals bound to `<sid>.path(self.config)`
+            pvars = {d.var for d in flow.all_defs if d.kind == "assign" and isinstance(d.value, ast.Call) and isinstance(d.value.func, ast.Attribute)
+                     and d.value.func.attr == "path" and [norm(a) for a in d.value.args] == ["self.config"]} | {"path"}
+            m_ex = _re.fullmatch(r"(not )?(\w+)\.exists\(\)", txt)
+            if m_ex and m_ex.group(2) in pvars:
+                exists_tests.append((t, ("not " if m_ex.group(1) else "") + "path.exists()", is_spil))
+            if _re.fullmatch(r"not \w+\.path\(self\.config\)", txt) or (txt.startswith("not ") and txt[4:] in pvars):
                 nopath_tests.append((t, txt, is_spil))
         want = "not path.exists()" if must_exist else "path.exists()"
         good = [t for t, txt, spil in exists_tests if txt == want and spil]
@@ -156,8 +162,14 @@ def rule_set(ctx: Ctx) -> RuleResult:
     cfg = cfg_of(f.node)
     a = f.node.args
     kw = a.kwarg.arg if a.kwarg else None
+    # the mapping that is handed on: the keyword mapping itself, or a fresh copy of it (dict(kwargs), {**kwargs}, kwargs.copy())
+    sflow = flow_of(f.node)
+    carriers = {kw} | {d.var for d in sflow.all_defs if d.kind == "assign" and d.value is not None and norm(d.value) in (
+        f"dict({kw})", f"{{**{kw}}}", f"{kw}.copy()", f"dict(**{kw})")}
     fold = [n for n in own_nodes(f.node) if isinstance(n, ast.Assign) and isinstance(n.targets[0], ast.Subscript)
-            and norm(n.targets[0].value) == kw and norm(n.targets[0].slice) == "attribute" and norm(n.value) == "value"]
+            and norm(n.targets[0].value) in carriers and norm(n.targets[0].slice) == "attribute" and norm(n.value) == "value"]
+    if fold:
+        kw = norm(fold[0].targets[0].value)
     ok = False
     why = "`kwargs[attribute] = value` is missing"
     if fold:
